@@ -154,4 +154,24 @@ def MetaPlain (cfg : Cfg) (extra : List (List String)) : Prop :=
   AvoidKey "metadata" (diffbaseFields cfg.diffbase) ∧ AvoidKey "metadata" (progressFields cfg.progress) ∧
     ExtraAvoids "metadata" extra
 
+/-! ### locations of the essence (for the "what every nested storage cleans" theorems) -/
+
+/-- the path resolves through mappings down to some value (`dicts.resolve` without default succeeds). -/
+def Present (e : J) (p : List String) : Prop := ∃ v, resolveE e p = .ok v
+
+/-- the location `p` is not in `e`: nothing can be read at it, so nothing written there by anybody can
+    show up in a diff of two such essences. -/
+def Absent (e : J) (p : List String) : Prop := ¬ Present e p
+
+/-- a location the pseudo-body of `MultiDiffBaseStorage.build` cannot bring back: not `kind…`, not
+    `metadata` as a whole, not `metadata.ownerReferences…` (true of every status field under `status`
+    or the payload, of every annotation key, of every ordinary `ignored_fields` entry). -/
+def PseudoApart (p : List String) : Prop :=
+  p.head? ≠ some "kind" ∧ p ≠ ["metadata"] ∧ ¬ (["metadata", "ownerReferences"] <+: p)
+
+/-- the `ignored_fields` of a (nested) diff-base storage. -/
+def leafIgnored : DiffBaseLeaf → List (List String)
+  | .annotations _ _ _ ig => ig
+  | .status _ ig => ig
+
 end Kopf.C04
